@@ -16,6 +16,53 @@ import (
 
 type engineSuite struct {
 	kv storage.KvStorage
+	// batches begun by `bbegin` and not yet committed (their engine transaction is open), with the iterators their
+	// compare-and-delete operations stand on
+	open map[string]*openBatch
+	// the writer started by `astart` whose Commit RPC is being held
+	slowDone    chan string
+	slowRelease chan struct{}
+}
+
+type openBatch struct {
+	b   storage.BatchWrite
+	its []storage.Iter
+}
+
+// fillBatch queues the operations pine:<k>:<v>[:<ttl>] cas:<k>:<new>:<old>[:<ttl>] put:<k>:<v>[:<ttl>] del:<k>
+// delcur:<k> (compare-and-delete of the record an iterator opened NOW stands on); ttl in seconds (the unit of
+// storage.BatchWrite), absent = 0 = the value never expires. Returns the iterators opened for delcur.
+func (s *engineSuite) fillBatch(b storage.BatchWrite, ops []string) (its []storage.Iter) {
+	ttlAt := func(f []string, i int) int64 {
+		if len(f) > i {
+			return int64(atoi(f[i]))
+		}
+		return 0
+	}
+	for _, op := range ops {
+		f := strings.Split(op, ":")
+		switch f[0] {
+		case "pine":
+			b.PutIfNotExist(unhx(f[1]), unhx(f[2]), ttlAt(f, 3))
+		case "cas":
+			b.CAS(unhx(f[1]), unhx(f[2]), unhx(f[3]), ttlAt(f, 4))
+		case "put":
+			b.Put(unhx(f[1]), unhx(f[2]), ttlAt(f, 3))
+		case "del":
+			b.Del(unhx(f[1]))
+		case "delcur":
+			k := unhx(f[1])
+			it, err := s.kv.Iter(context.Background(), k, append(append([]byte{}, k...), 0), 0, 0)
+			if err != nil || it.Next(context.Background()) != nil {
+				panic("delcur: no record at " + f[1])
+			}
+			its = append(its, it)
+			b.DelCurrent(it)
+		default:
+			panic("bad batch op " + op)
+		}
+	}
+	return its
 }
 
 func newEngineSuite(opts map[string]string) *engineSuite {
@@ -112,31 +159,85 @@ func (s *engineSuite) do(t []string) string {
 				ops = append(ops, op)
 			}
 		}
-		// pine:<k>:<v>[:<ttl>] cas:<k>:<new>:<old>[:<ttl>] put:<k>:<v>[:<ttl>] del:<k>; ttl in seconds (the unit of
-		// storage.BatchWrite), absent = 0 = the value never expires
-		ttlAt := func(f []string, i int) int64 {
-			if len(f) > i {
-				return int64(atoi(f[i]))
-			}
-			return 0
-		}
 		b := s.kv.BeginBatchWrite()
-		for _, op := range ops {
-			f := strings.Split(op, ":")
-			switch f[0] {
-			case "pine":
-				b.PutIfNotExist(unhx(f[1]), unhx(f[2]), ttlAt(f, 3))
-			case "cas":
-				b.CAS(unhx(f[1]), unhx(f[2]), unhx(f[3]), ttlAt(f, 4))
-			case "put":
-				b.Put(unhx(f[1]), unhx(f[2]), ttlAt(f, 3))
-			case "del":
-				b.Del(unhx(f[1]))
-			default:
-				panic("bad batch op " + op)
-			}
+		for _, it := range s.fillBatch(b, ops) {
+			defer it.Close()
 		}
 		return "batch " + commitLine(b.Commit(cctx))
+	case "bbegin":
+		// bbegin <id> <ops…>: BeginBatchWrite (on TiKV: the transaction and its start timestamp begin HERE) and queue
+		// the operations; nothing is sent to the engine yet. `bcommit <id>` commits it - whatever happened in between
+		// (a client that is slow between the two statements)
+		if s.open == nil {
+			s.open = map[string]*openBatch{}
+		}
+		b := s.kv.BeginBatchWrite()
+		s.open[t[1]] = &openBatch{b: b, its: s.fillBatch(b, t[2:])}
+		return "bbegin " + t[1]
+	case "bcommit":
+		ob := s.open[t[1]]
+		if ob == nil {
+			return "bcommit no-such-batch"
+		}
+		delete(s.open, t[1])
+		err := ob.b.Commit(ctx)
+		for _, it := range ob.its {
+			it.Close()
+		}
+		return "bcommit " + commitLine(err)
+	case "abandon":
+		// abandon <ops…> (cfg rpcfault=abandon, TiKV): the batch is committed by a client that goes away (its context
+		// is cancelled) once its PREWRITE has reached the cluster; client-go rolls the transaction back, which leaves
+		// a rollback record on every key of the batch. Answers what the adapter told that client; the rollback has
+		// been served when the op returns.
+		return "abandon " + abandonRun(func(actx context.Context) string {
+			b := s.kv.BeginBatchWrite()
+			for _, it := range s.fillBatch(b, t[1:]) {
+				defer it.Close()
+			}
+			return commitLine(b.Commit(actx))
+		})
+	case "astart":
+		// astart <ops…> (cfg rpcfault=abandon, TiKV): a writer whose COMMIT RPC is slow - nothing fails, nothing is
+		// cancelled. Returns when its prewrite is done (locks placed) and its commit RPC is being held. After TiKV's
+		// wall-clock lock ttl (3 s) whoever meets the locks rolls the transaction back. `afinish` lets the RPC go and
+		// answers what the writer was told.
+		if theAbandon == nil {
+			return "astart no-rpcfault"
+		}
+		reached, release := theAbandon.armCommit()
+		done := make(chan string, 1)
+		go func() {
+			b := s.kv.BeginBatchWrite()
+			its := s.fillBatch(b, t[1:])
+			line := commitLine(b.Commit(context.Background()))
+			for _, it := range its {
+				it.Close()
+			}
+			done <- line
+		}()
+		select {
+		case line := <-done:
+			return "astart " + line // it never got as far as its commit RPC
+		case <-reached:
+		case <-time.After(20 * time.Second):
+			return "astart stuck"
+		}
+		s.slowDone, s.slowRelease = done, release
+		return "astart held"
+	case "afinish":
+		if s.slowDone == nil {
+			return "afinish none"
+		}
+		close(s.slowRelease)
+		done := s.slowDone
+		s.slowDone, s.slowRelease = nil, nil
+		select {
+		case line := <-done:
+			return "afinish " + line
+		case <-time.After(30 * time.Second):
+			return "afinish stuck"
+		}
 	case "sleep":
 		// sleep <ms>: real time passes (the engine's ttl timers run on the wall clock); the model advances its clock
 		time.Sleep(time.Duration(atoi(t[1])) * time.Millisecond)
